@@ -12,12 +12,29 @@ use pushr::push::state::PushState;
 use std::time::{Duration, Instant};
 
 const MAXC: usize = 8;
-static mut CALLS: usize = 0;
-static mut DONE: [bool; MAXC] = [false; MAXC];
-static mut GREW: [usize; MAXC] = [0; MAXC];
-static mut NCLOCK: usize = 0;
-static mut CLOCK: [u64; MAXC] = [0; MAXC];
-static mut NOW_MS: u64 = 0;
+// ghost logs. Kani 0.68 merges a `static mut` with constants of identical initial bytes (see stubs.rs):
+// every static starts from a unique non-trivial pattern; the harness resets them before use.
+static mut CALLS: usize = 0x5EED_0000_0003_0101;
+static mut DONE: [usize; MAXC] = [0x5EED_0000_0003_0201; MAXC];
+static mut GREW: [usize; MAXC] = [0x5EED_0000_0003_0301; MAXC];
+static mut NCLOCK: usize = 0x5EED_0000_0003_0401;
+static mut CLOCK: [u64; MAXC] = [0x5EED_0000_0003_0501; MAXC];
+static mut NOW_MS: u64 = 0x5EED_0000_0003_0601;
+
+fn reset_logs() {
+    unsafe {
+        CALLS = 0;
+        NCLOCK = 0;
+        NOW_MS = 0;
+        let mut i = 0;
+        while i < MAXC {
+            DONE[i] = 0;
+            GREW[i] = 0;
+            CLOCK[i] = 0;
+            i += 1;
+        }
+    }
+}
 
 /// stand-in for one interpreter step: arbitrary growth of the INTEGER stack, arbitrary completion
 pub fn step_stub(st: &mut PushState, _is: &mut InstructionSet, _ic: &InstructionCache) -> bool {
@@ -35,7 +52,7 @@ pub fn step_stub(st: &mut PushState, _is: &mut InstructionSet, _ic: &Instruction
         }
         let done: bool = kani::any();
         GREW[c] = k;
-        DONE[c] = done;
+        DONE[c] = done as usize;
         CALLS = c + 1;
         done
     }
@@ -67,6 +84,7 @@ fn run_accounting(limit: i32) {
     if limit > RUN_L as i32 {
         return;
     }
+    reset_logs();
     let mut st = build(&Shape { ni: 1, nf: 1, ..SHAPE0 });
     let cap: usize = kani::any();
     kani::assume(cap <= RUN_G);
@@ -98,7 +116,7 @@ fn run_accounting(limit: i32) {
     c = 0;
     while c < MAXC {
         if c + 1 < n {
-            assert!(!unsafe { DONE[c] }, "a step reported completion but the run continued");
+            assert!(unsafe { DONE[c] } == 0, "a step reported completion but the run continued");
             assert!(unsafe { GREW[c] } <= cap, "a step exceeded the growth cap but the run continued");
         }
         if c < n {
@@ -106,7 +124,7 @@ fn run_accounting(limit: i32) {
         }
         c += 1;
     }
-    let last_done = n >= 1 && unsafe { DONE[n - 1] };
+    let last_done = n >= 1 && unsafe { DONE[n - 1] } != 0;
     let last_grew = if n >= 1 { unsafe { GREW[n - 1] } } else { 0 };
     match r {
         PushInterpreterState::NoErrors => {
@@ -184,6 +202,7 @@ pub fn c02_step_on_empty_exec() {
 #[kani::stub(std::time::Instant::elapsed, elapsed_stub)]
 #[kani::stub(pushr::push::instructions::InstructionSet::cache, cache_stub)]
 pub fn c02_run_empty_program() {
+    reset_logs();
     let mut st = build(&Shape { ni: 2, nf: 1, nb: 1, ..SHAPE0 });
     let limit: i32 = kani::any();
     kani::assume(limit >= 0);
